@@ -10,7 +10,7 @@ from sismic.model import (BasicState, CompoundState, DeepHistoryState, FinalStat
                           ShallowHistoryState, Statechart, Transition)
 
 EVENTS = ['e0', 'e1', 'e2']
-NAMES = ['n%02d' % i for i in range(40)]
+NAMES = ['n%02d' % i for i in range(60)]
 
 
 class Profile:
@@ -31,10 +31,13 @@ class Profile:
         self.p_prio = 0.4
         self.same_source_boost = 0.3
         self.p_event_param_guard = 0.05
+        self.p_active_guard = 0.12     # guards that also read the configuration through active()
+        self.active_in_actions = True  # actions may read the configuration through active()
         self.shuffle_names = True
         self.events = None            # event alphabet of the transitions (default EVENTS)
         self.p_sibling_target = 0.0   # probability that a target is a sibling of the source (stays in its region)
         self.p_root_orth = 0.15
+        self.p_hist_target = 0.0      # probability that a transition targets a history state (from outside its parent)
         self.unique_source_event = False   # at most one transition per (source, event)
         self.alt = None               # (probability, Profile): alternative profile drawn per chart
         self.__dict__.update(kw)
@@ -66,6 +69,8 @@ class Gen:
             return base + ' and ' + self.rng.choice(['after(%d)', 'idle(%d)']) % self.rng.choice([0, 2, 4])
         if r < self.p.p_time_guard + 0.14:
             return base + ' and x %s %d' % (self.rng.choice(['<', '>=', '!=']), self.rng.randint(0, 3))
+        if r < self.p.p_time_guard + 0.14 + self.p.p_active_guard:
+            return base + self.rng.choice([" and not active('%s')", " and active('%s')", " or active('%s')"]) % self.rng.choice(NAMES[:12])
         return base
 
     def action(self, allow_send=True):
@@ -86,6 +91,8 @@ class Gen:
                     parts.append("send('%s')" % ev)
             elif r < 0.75:
                 parts.append(self.rng.choice(['x = x + 1', 'y = y + x', 'x = x - 1', 'y = x', 'x = 0', 'y = y + 1']))
+            elif r < 0.83 and self.p.active_in_actions:
+                parts.append("y = y + (1 if active('%s') else 0)" % self.rng.choice(NAMES[:12]))
             elif r < 0.9:
                 parts.append('z%d = time' % self.rng.randint(0, 1))
             else:
@@ -264,7 +271,14 @@ class Gen:
                 src = rng.choice(made_t).source
             else:
                 src = rng.choice(owners)
-            if rng.random() < p.p_internal:
+            hist = [n for n in order if states[n][0] in ('shallow', 'deep')]
+            if hist and rng.random() < p.p_hist_target:
+                tgt = rng.choice(hist)
+                outside = [o for o in owners if wf7(o, tgt)]
+                if not outside:
+                    continue
+                src = rng.choice(outside)
+            elif rng.random() < p.p_internal:
                 tgt = None
             elif states[src][1] is not None and rng.random() < p.p_sibling_target:
                 sibs = [c for c in children[states[src][1]] if states[c][0] not in ('shallow', 'deep')]
@@ -293,16 +307,128 @@ class Gen:
 
 def valid_chart(rng, profile=None):
     profile = profile or Profile()
-    if profile.alt is not None and rng.random() < profile.alt[0]:
-        profile = profile.alt[1]
+    alts = profile.alt
+    if alts is not None:
+        if not isinstance(alts, list):
+            alts = [alts]
+        r = rng.random()
+        for prob, alt in alts:
+            if r < prob:
+                return alt(rng) if callable(alt) else Gen(rng, alt).build()
+            r -= prob
     return Gen(rng, profile).build()
 
 
+def nested_parallel_chart(rng):
+    """Hand-shaped family: an orthogonal state P whose regions contain, at different depths, another orthogonal state Q;
+    several transitions on ONE event in different regions (staying, leaving their region but not the enclosing one,
+    leaving everything), guards on bits.  Satisfies DESIGN.md section 2."""
+    names = list(NAMES)
+    rng.shuffle(names)
+    it = iter(names)
+    sc = Statechart('gen', preamble='x = 0\ny = 0\ng = 4095\nc = 0')
+    g = Gen(rng, Profile(p_contract=0.1))
+    kbit = [0]
+
+    def guard():
+        if rng.random() < 0.6:
+            return None
+        kbit[0] += 1
+        return '(g >> %d) & 1 == 1' % (kbit[0] % 12)
+
+    def code():
+        return g.action() if rng.random() < 0.4 else None
+    top = next(it)
+    outside = next(it)
+    P = next(it)
+    sc.add_state(CompoundState(top, initial=P), None)
+    decl = [(BasicState(outside, on_entry=code()), top), (OrthogonalState(P, on_entry=code(), on_exit=code()), top)]
+    trans = []
+    leaves_by_region = []
+
+    def region(parent, depth, allow_q):
+        """a compound region under `parent` with a chain of `depth` nested compounds ending in two basic states"""
+        r = next(it)
+        decl.append((CompoundState(r, on_exit=code()), parent))
+        cur = r
+        chain = [r]
+        for _ in range(depth):
+            n = next(it)
+            decl.append((CompoundState(n, on_exit=code()), cur))
+            chain.append(n)
+            cur_parent = cur
+            # a sibling basic state next to the nested compound (target for "leave the inner but stay in the region")
+            sib = next(it)
+            decl.append((BasicState(sib, on_entry=code()), cur_parent))
+            leaves_by_region.append((r, sib, 'sib', cur_parent))
+            cur = n
+        if allow_q and rng.random() < 0.7:
+            q = next(it)
+            decl.append((OrthogonalState(q, on_exit=code()), cur))
+            extra = next(it)
+            decl.append((BasicState(extra), cur))
+            for _ in range(rng.choice([2, 2, 3])):
+                sub = next(it)
+                decl.append((CompoundState(sub, on_exit=code()), q))
+                a, b = next(it), next(it)
+                decl.append((BasicState(a, on_exit=code()), sub))
+                decl.append((BasicState(b, on_entry=code()), sub))
+                trans.append((a, b))                       # stays in its region of Q
+                if rng.random() < 0.5:
+                    trans.append((a, extra))               # leaves Q but stays inside the region of P
+                if rng.random() < 0.3:
+                    trans.append((sub, b))
+            inits.append((cur, q))
+        else:
+            a, b = next(it), next(it)
+            decl.append((BasicState(a, on_exit=code()), cur))
+            decl.append((BasicState(b, on_entry=code()), cur))
+            trans.append((a, b))
+            if rng.random() < 0.3:
+                trans.append((a, outside))                 # leaves P altogether
+            inits.append((cur, a))
+        for up, down in zip(chain, chain[1:]):
+            inits.append((up, down))
+        return r
+    inits = []
+    nreg = rng.choice([2, 2, 3])
+    qpos = rng.randrange(nreg)
+    for i in range(nreg):
+        region(P, rng.choice([0, 0, 1]) if i == qpos else rng.choice([0, 1, 2, 3, 4]), i == qpos)
+    by_parent = {}
+    for st, parent in decl:
+        by_parent.setdefault(parent, []).append(st)
+    sc_states = {st.name: st for st, _ in decl}
+    for cpd, ini in inits:
+        if isinstance(sc_states[cpd], CompoundState) and sc_states[cpd].initial is None:
+            sc_states[cpd].initial = ini
+    order = [top]
+    i = 0
+    seen_parent = {top: None}
+    while i < len(order):
+        ch = list(by_parent.get(order[i], []))
+        rng.shuffle(ch)
+        for st in ch:
+            sc.add_state(st, order[i])
+            order.append(st.name)
+        i += 1
+    rng.shuffle(trans)
+    for a, b in trans:
+        t = Transition(a, b, event='e0', guard=guard(), action=code(),
+                       priority=rng.choice([None, None, 1, -1]))
+        sc.add_transition(t)
+    sc.add_transition(Transition(outside, P, event='e1'))
+    return sc
+
+
 def parallel_profile(**kw):
+
+
     """Charts in which several transitions fire in ONE macro step: orthogonal-heavy, one event name, targets mostly
     inside the source's own region, few guards."""
     d = dict(p_orth=0.55, p_root_orth=0.5, max_states=14, n_trans=(6, 16), events=['e0'], p_sibling_target=0.8,
              p_guard=0.25, p_eventless=0.03, p_internal=0.2, p_history=0.15, p_final=0.03, p_contract=0.1,
              same_source_boost=0.1, p_prio=0.3, unique_source_event=True)
+    d.update({k: v for k, v in kw.items()})
     d.update(kw)
     return Profile(**d)
